@@ -287,3 +287,21 @@ Theorem C02_inspect_current : forall d file first last title subs,
     Some (ncols_Z n, List.map sub_pair subs').
 Proof. exact inspect_pin. Qed.
 Print Assumptions C02_inspect_current.
+
+(* inspect, accept the recommendation, inspect again: Model/DataRead.inspect_twice equals the three statements
+   of LASFile.read's data-section loop around `if recommended_regexp_subs != regexp_subs and
+   accept_regexp_sub_recommendations:` (py_inspect_twice, re-translated on this run; accept = True, the default);
+   and the substitution lists the model starts from are what defaults.READ_POLICIES / READ_SUBS hold today for
+   the policies "default" and "comma-delimiter" (get_substitutions itself is not translated: policy_subs in
+   Proofs/FuncsPinInspect.v is its reading of a policy that is a key of READ_POLICIES). *)
+Theorem C02_inspect_twice_current : forall d file first last title subs,
+  py_inspect_twice (skipn first file) (Z.of_nat first) (Z.of_nat last) (List.map sub_pair subs) [ch_hash] (split_line d) true
+  = let (n, subs') := inspect_twice d (body_lines file (mkspos first last title)) subs in
+    Some (ncols_Z n, List.map sub_pair subs').
+Proof. exact inspect_twice_pin. Qed.
+Theorem C02_read_policy_current :
+  policy_subs (s2l "default") = Some (List.map sub_pair default_subs) /\
+  policy_subs (s2l "comma-delimiter") = Some (List.map sub_pair comma_delim_subs).
+Proof. exact read_policy_tables. Qed.
+Print Assumptions C02_inspect_twice_current.
+Print Assumptions C02_read_policy_current.
